@@ -2,6 +2,7 @@
 import random
 
 from vmon import gens as G
+from vmon.gens import THOROUGH_SCALE as TS
 from vmon import oracles as O
 from vmon import search as S
 
@@ -76,14 +77,14 @@ def generate(tier, seed):
     # ---- random multisets from small universes (duplicates, shuffles)
     pools = [G.universe("AC", 6), G.universe("ACD", 4), G.universe("ACDW", 3), G.universe("A", 8),
              G.universe("AC", 5) + hostile, G.NON_AMINO + G.universe("ab", 3)]
-    n_rand = 400 if not thorough else 6000
+    n_rand = 400 if not thorough else 6000 * TS
     for i in range(n_rand):
         pool = pools[i % len(pools)]
         seqs = G.small_multiset(rng, pool, 1, 60)
         k = rng.choice([1, 1, 2, 2, 3, 4, 5])
         yield "self", {"seqs": seqs, "k": k}, i < 120
     # ---- CDR3-like repertoires
-    n_rep = 40 if not thorough else 400
+    n_rep = 40 if not thorough else 400 * TS
     for i in range(n_rep):
         n = rng.randint(30, 150) if not thorough else rng.randint(50, 400)
         seqs = G.repertoire(rng, n, families=max(2, n // rng.choice([4, 8, 20])))
